@@ -173,7 +173,13 @@ type genReq struct {
 	desc  string // human-readable origin
 	bytes []byte
 	multi [][]byte // the same request with file_to_generate permuted
+	reps  bool     // carries custom options with map fields: repeated genOptionReps times per mode
 }
+
+// A request whose descriptors carry maps (custom options) shows a map-order dependence
+// only with some probability per run; it is answered this many times in this process
+// and this many times in the child processes together.
+const genOptionReps = 8
 
 func genClosure(fd protoreflect.FileDescriptor, seen map[string]bool, out *[]*descriptorpb.FileDescriptorProto) {
 	if seen[fd.Path()] {
@@ -445,6 +451,7 @@ func famGen(c *Ctx) {
 	}
 
 	var reqs []*genReq
+	reqs = append(reqs, genOptionCorpus(c)...)
 	reqs = append(reqs, genLinkedRequests(c)...)
 	for i := 0; i < c.N; i++ {
 		if r := genRandomRequest(c); r != nil {
@@ -481,8 +488,15 @@ func famGen(c *Ctx) {
 				}
 			}
 		}
-		cl2, resp2, _ := genRun(r.bytes)
-		genCompare(c, r, "run1", "run2", cl, resp, cl2, resp2)
+		nrep := 1
+		if r.reps {
+			nrep = genOptionReps - 1
+			c.Stat("gen_option_requests")
+		}
+		for k := 0; k < nrep; k++ {
+			cl2, resp2, _ := genRun(r.bytes)
+			genCompare(c, r, "run1", "run2", cl, resp, cl2, resp2)
+		}
 		for _, mb := range r.multi {
 			cl3, resp3, _ := genRun(mb)
 			genCompare(c, r, "run1", "permuted_file_to_generate", cl, resp, cl3, resp3)
@@ -490,28 +504,37 @@ func famGen(c *Ctx) {
 	}
 	// 3. two fresh processes (different hash seeds, no state carried over), one
 	// answering the requests in reverse order
-	frames := make([][]byte, len(reqs))
+	var frames [][]byte
+	var frameReq []int
 	for i, r := range reqs {
-		frames[i] = r.bytes
+		n := 1
+		if r.reps {
+			n = genOptionReps / 2
+		}
+		for k := 0; k < n; k++ {
+			frames = append(frames, r.bytes)
+			frameReq = append(frameReq, i)
+		}
 	}
 	for k, rev := range []bool{false, true} {
 		tag := []string{"child_forward", "child_reverse"}[k]
 		resps, err := genSpawn(frames, rev, tag)
-		if err != nil || len(resps) != len(reqs) {
-			c.PropFail("C40", fmt.Sprintf("subprocess %s failed: %v (%d of %d responses)", tag, err, len(resps), len(reqs)))
+		if err != nil || len(resps) != len(frames) {
+			c.PropFail("C40", fmt.Sprintf("subprocess %s failed: %v (%d of %d responses)", tag, err, len(resps), len(frames)))
 			continue
 		}
-		for i, r := range reqs {
-			j := bytes.IndexByte(resps[i], 0)
+		for fi, i := range frameReq {
+			r := reqs[i]
+			j := bytes.IndexByte(resps[fi], 0)
 			if j < 0 {
 				c.PropFail("C40", "malformed child response", r.desc)
 				continue
 			}
-			resp := resps[i][j+1:]
+			resp := resps[fi][j+1:]
 			if len(resp) == 0 {
 				resp = nil
 			}
-			genCompare(c, r, "run1", tag, first[i].class, first[i].resp, string(resps[i][:j]), resp)
+			genCompare(c, r, "run1", tag, first[i].class, first[i].resp, string(resps[fi][:j]), resp)
 		}
 	}
 }
